@@ -16,8 +16,8 @@ RULE = (
 )
 ASSUMPTIONS = ["metrics eligible for the supervised clause: the 41 rows of the table that are symmetric dissimilarities (gaussian, statistic, KL, K-divergence, Neyman, Pearson are not)"]
 BUDGET = {
-    "quick": {"examples": 6400, "shards": 8, "min_nontrivial": 1000, "min_per_name": 20},
-    "thorough": {"examples": 40000, "shards": 16, "min_nontrivial": 6000, "min_per_name": 150, "max_wall": 3000},
+    "quick": {"examples": 6400, "shards": 8, "min_nontrivial": 1000, "min_per_name": 5},
+    "thorough": {"examples": 40000, "shards": 16, "min_nontrivial": 6000, "min_per_name": 40, "max_wall": 3000},
 }
 ELIGIBLE = M.MODEL_METRICS
 assert len(ELIGIBLE) == 41
@@ -80,7 +80,7 @@ def check_case(case):
             Xtr = np.array(case["X"], dtype=float)
             preds = [int(v) for v in libcall(r.model.predict, Xtr)]
         else:
-            preds = [int(v) for v in libcall(r.model.predict, models.index_features(n), np.arange(n))]
+            preds = [int(v) for v in libcall(r.model.predict, models.index_features(n), r.I_tr.copy())]
         require(preds == list(case["Y"]), "supervised:predict_training_set", lambda: "predict(X_train)=%r, Y_train=%r (%s; W=%r costs=%r)" % (preds, case["Y"], case.get("metric", "pre"), W, s["cost"]))
         nn_other = any(case["Y"][min((j for j in range(n) if j != i), key=lambda j: W[i][j])] != case["Y"][i] for i in range(n))
         cl = ["sup", "m:" + case["metric"] if case["mode"] == "feat" else "sup_pre"]
